@@ -494,7 +494,8 @@ def oracle_generation(ctx, want, viol, ok, errs, settings, payload):
         key = "rejected-valid"
         known_sels = {selector(m) for m in payload["spec"]["methods"]}
         if payload["spec"].get("layout") and errs and all(v == {"kind": "methodNotFound"} for v in errs.values()) and set(errs) <= known_sels:
-            # every complaint is "Method was not found." about a method that the API has (services in sub-packages)
+            # every complaint is "Method was not found." about a method that the API has (services in sub-packages;
+            # the defect repaired by cb5c413)
             key = "rejected-valid:method-of-another-package-view-not-found"
         ctx.fail(key, f"valid settings rejected: {errs}", payload)
     if not want and ok:
@@ -986,7 +987,7 @@ def run(ctx):
                "C14/C01's subject); request and response messages live in the file of their service")
     run_corpus(ctx)
     r = ctx.rng("apis")
-    napis = ctx.n(4, 16)
+    napis = ctx.n(3, 16)      # quick: the five sub-package layouts below add five more APIs with call-time sessions
     for a in range(napis):
         spec = gen_spec(r, must_have=SINGLE_DEFECTS if a % 2 == 0 else SINGLE_DEFECTS[::-1])
         files = build_files(spec)
@@ -1009,16 +1010,19 @@ def run(ctx):
         r.shuffle(rest)
         pick += rest[:ctx.n(7, 20)]
         for n_, (settings, klass) in enumerate(pick):
-            t3(ctx, r, spec, settings, klass, run_tests=(n_ == 0 or not ctx.quick) and klass.startswith(("valid", "shape")))
+            t3(ctx, r, spec, settings, klass, run_tests=((n_ == 0 and a == 0) or not ctx.quick) and klass.startswith(("valid", "shape")))
             ctx.count("stream", "generated")
-    run_layouts(ctx, ctx.rng("layouts"), ctx.n(1, 3), ctx.n(10, 30), ctx.n(1, 2))
+    run_layouts(ctx, ctx.rng("layouts"), ctx.n(1, 3), ctx.n(2, 30), ctx.n(1, 3))
 
 
-def layout_lists(r, spec, nrandom):
+def layout_lists(r, spec, nrandom, thin=False):
     """settings lists for an API whose services live in sub-packages: per SERVICE a valid list naming only that service, every
-    single violation (injected into an entry of that service) and a duplicate; valid lists spanning both services; random ones"""
-    by_sel = {selector(m): m for m in spec["methods"]}
+    single violation (injected into an entry of that service) and a duplicate; valid lists spanning both services; random ones.
+    thin (quick tier): every violation kind and the duplicate once per API, on a service of a sub-package (alternating
+    when both services live in one)"""
     out = []
+    # (Aux has unary methods only: the streaming violation, index 1, goes to Ids whenever Ids lives in a sub-package)
+    in_sub = [sn for sn in ("Aux", "Ids") if any(m["service"] == sn and pkg_of(m) != PKG for m in spec["methods"])] or ["Aux", "Ids"]
     for sname in ("Ids", "Aux"):
         mine = [m for m in spec["methods"] if m["service"] == sname]
         unary = [m for m in mine if m["streaming"] == "unary"]
@@ -1030,13 +1034,16 @@ def layout_lists(r, spec, nrandom):
             r.shuffle(ms)
             return [good_entry(r, m, allow_empty=False) for m in ms[:r.randint(1, 2)]]
         out.append((valid_list(), f"valid:{sname}-only"))
-        for which in VIOLATIONS:
+        for k, which in enumerate(VIOLATIONS + ["duplicate"]):
+            if thin and in_sub[k % len(in_sub)] != sname:
+                continue
             s = valid_list()
+            if which == "duplicate":
+                s.insert(r.randint(0, len(s)), copy.deepcopy(r.pick(s)))
+                out.append((s, f"duplicate:{sname}"))
+                continue
             sub = {"methods": mine, "layout": spec.get("layout")}        # the injection stays inside this service
             out.append((s, f"violation:{sname}:" + inject(r, sub, s, which)))
-        s = valid_list()
-        s.insert(r.randint(0, len(s)), copy.deepcopy(r.pick(s)))
-        out.append((s, f"duplicate:{sname}"))
     both = []
     for sname in ("Ids", "Aux"):
         unary = [m for m in spec["methods"] if m["service"] == sname and m["streaming"] == "unary"]
@@ -1051,18 +1058,23 @@ def layout_lists(r, spec, nrandom):
 def run_layouts(ctx, r, napis, nrandom, ncalls, layouts=None):
     """the API's services live in sub-packages of the API package (all of them / one of two / each in its own / nested):
     generation through the real Generator for every list, call time for the first accepted valid lists"""
-    for layout in (layouts or [k for k in LAYOUTS if k != "flat"]):
+    for li, layout in enumerate(layouts or [k for k in LAYOUTS if k != "flat"]):
         for a in range(napis):
             spec = gen_spec(r, must_have=SINGLE_DEFECTS if a % 2 == 0 else SINGLE_DEFECTS[::-1], layout=layout)
             files = build_files(spec)
             api, _ = genrun.build_api(apigen.request(files, "transport=grpc+rest,autogen-snippets=false"))
-            lists = layout_lists(r, spec, nrandom)
+            lists = layout_lists(r, spec, nrandom, thin=ctx.quick and not layouts)
             t2(ctx, api, api_json(api), spec, lists, f"{layout}{a}")
+            # call time: the list spanning both services first (both sub-package clients), then other accepted valid lists
+            order = sorted(range(len(lists)), key=lambda i: (lists[i][1] != "valid:both-services", i))
             done = 0
-            for settings, klass in lists:
+            for i in order:
+                settings, klass = lists[i]
                 before = ctx.distribution.get("generation_layout", {}).get(layout + "/accepted", 0)
                 go = klass.startswith("valid") and done < ncalls
-                t3(ctx, r, spec, settings, klass, calls=go, run_tests=go and not ctx.quick)
+                # quick tier: two of the four paths per layout, rotating with the layout and the seed
+                paths = ALL_PATHS if not ctx.quick else [("sync", "rest_asyncio"), ("asyncio", "rest")][(li + a + int(ctx.seed or 0)) % 2]
+                t3(ctx, r, spec, settings, klass, calls=go, run_tests=go and not ctx.quick, paths=paths)
                 if go and ctx.distribution.get("generation_layout", {}).get(layout + "/accepted", 0) > before:
                     done += 1
                 ctx.count("stream", "generated-layout:" + layout)
@@ -1102,8 +1114,8 @@ CLAIM = dict(
     text=('Lean 4 proof on a model of API.enforce_valid_method_settings that a method-settings list is accepted iff no selector repeats and every '
           'entry names an existing method and, when it lists fields, a unary method whose listed fields are top-level, non-REQUIRED, UUID4-annotated '
           'singular strings (with the exact error reported per selector, completeness of the violation list, duplicates reported as such), that '
-          'generation — one such validation per sub-package view of the API that renders a service — aborts on every list the whole API rejects '
-          'wherever the services live, and on a '
+          'generation — one such validation, against the whole API, per sub-package view that renders a service — aborts on exactly the lists the '
+          'whole API rejects wherever the services live, and on a '
           'model of the auto_populate_uuid4_fields macro, of the settings lookup by selector and of the `import uuid` gate that on the sync, asyncio, '
           'REST and rest_asyncio paths a listed field is sent with a value drawn from uuid4 during that call iff the caller left it unset '
           '(proto3-optional: not present; plain: empty; no request at all: every listed field), that a caller-provided value and all other fields are '
@@ -1116,10 +1128,11 @@ CLAIM = dict(
           '(the emitted unit tests of the feature are run for information only); a model-independent oracle restating AIP-4235.'),
     technique='Lean 4 theorems (loop invariants over the settings list and over the macro loop) + differential T2/T3 against the real validation and the emitted clients',
     design='7.18',
-    note=('Two departures of the code from the statement are proved as _counterexample theorems and recorded as known findings: a request INSTANCE '
-          "that is passed twice re-sends the first id because the emitted code populates the caller's object in place; a VALID settings entry is "
-          'rejected ("Method was not found.") when another service of the API lives in a proto sub-package, because that sub-package\'s view of the '
-          'API re-validates the whole list against its own methods. The emitted unit tests of the '
+    note=('One departure of the code from the statement is proved as a _counterexample theorem and recorded as a known finding: a request INSTANCE '
+          "that is passed twice re-sends the first id because the emitted code populates the caller's object in place. (A VALID settings entry "
+          'being rejected with "Method was not found." when another service of the API lives in a proto sub-package was repaired in /repo by '
+          'cb5c413: every view now validates against the whole API; corpus entry = regression input, generation_accepts_valid = regression theorem.) '
+          'The emitted unit tests of the '
           'feature are run for information only (a field listed twice in one entry makes them fail; the library is right: C13 excluded shape). (A `repeated string` '
           'UUID4 field passing the validation was repaired in /repo by 239cd3d; corpus entry = regression input, `repeated_string_rejected` = '
           "regression theorem.) uuid.uuid4 is an external parameter (injective, non-empty). macro_on_all_paths is structural on the model's "
